@@ -109,6 +109,35 @@ def stepV (targets : Array Bool) (code : Array Instr) (i : Nat) : Option (Array 
 def optV (code : Array Instr) : Option (Array Instr) :=
   (List.range code.size).reverse.foldlM (stepV (targetsV code)) code
 
+/-! ## the static conditions on compiler output that the semantic theorem needs -/
+
+/-- operand of the opcodes that call (or make a closure of) a function entry -/
+def callTarget : Instr → Option Int
+  | .call t | .callrec t | .pushpc t => some t
+  | _ => none
+
+def isScope : Instr → Bool
+  | .scope _ _ _ => true
+  | _ => false
+
+/-- static scan of code BEFORE the pass: every `call` / `callrec` / `pushpc` operand is the pc of
+    a `scope` instruction (a function entry); the last instruction is `ret`; no `jumpifnot`
+    targets its own successor (the pass would turn it into `nop` and drop its pop) -/
+def wfCheck (c : Array Instr) : Bool :=
+  ((List.range c.size).all fun pc =>
+    match c[pc]? with
+    | some ins =>
+      (match callTarget ins with
+       | some t => decide (0 ≤ t) && (match c[t.toNat]? with | some sc => isScope sc | none => false)
+       | none => true) &&
+      (match ins with
+       | .jumpifnot t => t != (pc : Int) + 1
+       | _ => true)
+    | none => true) &&
+  (match c.size with
+   | 0 => false
+   | n + 1 => match c[n]? with | some .ret => true | _ => false)
+
 /-! ## one turn of the loop on the environment alone -/
 
 /-- instructions that consult the oracle record of their poll (a native / `funcIndex2` / iterator
